@@ -155,8 +155,9 @@ def _align_parse(ctx, index):
     calls = [n for n in iter_own(f.node) if isinstance(n, ast.Call) and norm(n.func).endswith("func_arg2param")]
     ctx.need(calls, "func_arg2param call vanished from function.parse")
     for c in calls:
-        a0 = c.args[0] if c.args else None
-        dk = [k_.value for k_ in c.keywords if k_.arg == "default"]
+        ba = index.bound_args(f.mod, c, f)
+        a0 = ba.get("func_arg", c.args[0] if c.args else None)
+        dk = [ba["default"]] if "default" in ba else []
         ok = False
         if a0 is not None and dk:
             d0 = dk[0]
